@@ -46,12 +46,11 @@ type GQLHarness struct {
 
 // webuiRouter is the routing part of commands/webui.go:runWebUI (minus the
 // playground and the static front-end, which serve no repository data).
-func webuiRouter(mrc *cache.MultiRepoCache, userId *entity.Id) http.Handler {
+func webuiRouter(mrc *cache.MultiRepoCache, userId *entity.Id, graphqlHandler http.Handler) http.Handler {
 	router := mux.NewRouter()
 	if userId != nil {
 		router.Use(auth.Middleware(*userId))
 	}
-	graphqlHandler := graphql.NewHandler(mrc, nil)
 	router.Path("/graphql").Handler(graphqlHandler)
 	router.Path("/gitfile/{repo}/{hash}").Handler(httpapi.NewGitFileHandler(mrc))
 	router.Path("/upload/{repo}").Methods("POST").Handler(httpapi.NewGitUploadFileHandler(mrc))
@@ -72,8 +71,11 @@ func NewGQLHarness(rep *world.Replica, userId entity.Id) (*GQLHarness, error) {
 	}
 	rep.Cache = rc
 	h := &GQLHarness{Rep: rep, MRC: mrc, RC: rc, UserId: userId}
-	h.anon = webuiRouter(mrc, nil)
-	h.user = webuiRouter(mrc, &userId)
+	// One GraphQL handler (one root resolver) serves both stacks: whether a user is attached is a property of
+	// the request, so nothing a request with a user leaves behind in the handler may authorise a later one without.
+	graphqlHandler := graphql.NewHandler(mrc, nil)
+	h.anon = webuiRouter(mrc, nil, graphqlHandler)
+	h.user = webuiRouter(mrc, &userId, graphqlHandler)
 	return h, nil
 }
 
